@@ -5,6 +5,7 @@ package zzverif
 // statement evaluated by the library.
 
 import (
+	dtpb "github.com/google/fhir/go/proto/google/fhir/proto/r4/core/datatypes_go_proto"
 	"fmt"
 	"strconv"
 	"strings"
@@ -13,6 +14,7 @@ import (
 	"unicode/utf8"
 
 	"github.com/verily-src/fhirpath-go/fhirpath/system"
+	"github.com/verily-src/fhirpath-go/internal/fhir"
 )
 
 type c14Case struct {
@@ -24,9 +26,23 @@ type c14Case struct {
 	Len   int    `json:"len"`
 	Recv  string `json:"recv"`  // lit | fhir.string | fhir.code | fhir.markdown | fhir.uri | var
 	ArgsV bool   `json:"argsv"` // deliver arguments through variables
+	// Lang: evaluated on a Patient whose Resource.language is this tag ("" = no input resource):
+	// string functions do not depend on anything but their operands, whatever locale the data declares
+	Lang string `json:"lang,omitempty"`
 }
 
-var c14Alphabet = []string{"a", "b", "Z", " ", "é", "€", "😀", "́", "ß", "İ", "'", "\\", "x",
+var c14Langs = []string{"en", "en-US", "tr", "tr-TR", "az", "az-Latn", "lt", "el", "de", "nl", "ja"}
+
+func c14Input(c c14Case) []fhir.Resource {
+	if c.Lang == "" {
+		return nil
+	}
+	p := fixturePatient()
+	p.Language = &dtpb.Code{Value: c.Lang}
+	return []fhir.Resource{p}
+}
+
+var c14Alphabet = []string{"a", "b", "Z", " ", "é", "€", "😀", "́", "ß", "İ", "'", "\\", "x", "i", "I", "ı",
 	// characters with a case mapping outside the Lu/Ll categories (title case, letter numbers,
 	// enclosed letters), and the characters a regexp/template engine treats specially
 	"ǅ", "Ⅷ", "Ⓐ", "ᾈ", "\uFFFD", "$", "1", "{", "}", ".", "*", "(", "[", "^", "+", "?", "|"}
@@ -90,6 +106,9 @@ func c14GenStr(s Src, lo, hi int) string {
 
 func c14Gen(s Src) c14Case {
 	c := c14Case{S: c14GenStr(s, 0, 12), Recv: pickOne(s, []string{"lit", "lit", "var", "fhir.string", "fhir.code", "fhir.markdown", "fhir.uri"}), ArgsV: s.Prob(40)}
+	if s.Prob(30) {
+		c.Lang = pickOne(s, c14Langs)
+	}
 	c.Fn = pickOne(s, []string{"length", "substring1", "substring2", "substring2", "indexOf", "indexOf", "toChars", "startsWith", "endsWith", "contains", "replace", "upper", "lower", "law-chars", "law-split", "law-index", "law-contains"})
 	n := utf8.RuneCountInString(c.S)
 	c.Start = s.Range(-2, n+2)
@@ -237,7 +256,7 @@ func c14Source(c c14Case) (string, map[string]any, string) {
 
 func c14Run(ctx *Ctx, c c14Case) {
 	src, vars, _ := c14Source(c)
-	out := evalWith(src, nil, vars)
+	out := evalWith(src, c14Input(c), vars)
 	rs, rt := []rune(c.S), []rune(c.T)
 	n := len(rs)
 	multibyte := len(c.S) != n
@@ -252,7 +271,7 @@ func c14Run(ctx *Ctx, c c14Case) {
 	default:
 		nontrivial = multibyte
 	}
-	ctx.Eval(src+"|"+c.S+"|"+c.T+"|"+c.R, nontrivial, "fn:"+c.Fn, "recv:"+c.Recv)
+	ctx.Eval(src+"|"+c.S+"|"+c.T+"|"+c.R+"|"+c.Lang, nontrivial, "fn:"+c.Fn, "recv:"+c.Recv, "input-language:"+c.Lang)
 	fail := func(what, want string) {
 		ctx.Fail(fmt.Sprintf("strings %s: %s", strings.TrimRight(c.Fn, "12"), what), fmt.Sprintf("%s with s=%q t=%q r=%q start=%d len=%d: want %s, got %s", src, c.S, c.T, c.R, c.Start, c.Len, want, out))
 	}
